@@ -22,6 +22,9 @@ def run(ctx, L, tier):
     c20.shared_state(ctx, L)        # no state that survives from one compiled file / call to the next (module, class, closure, default argument)
     from . import c20 as _c20
     _c20.output_names(ctx, L)         # generated files are named after the input's base name; includes refer to them by the same stem
+    from . import c17 as _c17
+    _c17.ordering(ctx, L)
+    _c17.patch_actions(ctx, L)          # a file is patched once, when it is first processed: included nodes are shared with every includer
     return sorted(set(o.rule for o in L.obligations))
 
 
